@@ -351,7 +351,12 @@ def judgeLine (s0 : JState) (line : String) : JState :=
         let s := stepEvent s
         if res == "ok" then useLive s "command-enable" line (jOid a) else s
       else s.flag s!"unexpected-line {line}"
-    | "err" :: _ => { stepEvent s with frames := [] }
+    | "err" :: rest =>
+      -- "Only this_object() can be destructed from move_or_destruct": legitimate only while an outer destruct is
+      -- running its move_or_destruct hooks (a stale restriction after an error would refuse ordinary destructs)
+      let nDest := (s.frames.filter (fun f => match f with | Frame.dest _ => true | _ => false)).length
+      let s := if rest.headD "" == "*Only" && nDest < 2 then s.flag s!"destruct-refused outside move_or_destruct: {line}" else s
+      { stepEvent s with frames := [] }
     | ["r", "top", "!err"] => s
     | ["r", "tick", "!err"] => s
     | "hb-stale-slot" :: _ => s.flag s!"called-while-destructed {line}"
